@@ -60,6 +60,7 @@ class _Ctx:
         from twisted.python.failure import Failure
         self.Failure = Failure
         self.vals, self.excs = _pools()
+        self.unknown = object()        # a value outside the pool (token 98)
 
     def tok(self, x):
         if isinstance(x, self.Failure):
@@ -91,7 +92,7 @@ class _Ctx:
         if kind == "pass":
             return lambda x: x
         if kind == "const":
-            return lambda x: self.vals[spec[1]]
+            return lambda x: self.vals[spec[1]] if spec[1] < len(self.vals) else self.unknown
         if kind == "raise":
             def f(x):
                 raise self.excs[spec[1]]()
@@ -109,7 +110,7 @@ class _Ctx:
         raise ValueError(spec)
 
     def matcher(self, m):
-        from testtools.matchers import Always, Mismatch, Never
+        from testtools.matchers import Always, MatchesAll, MatchesAny, Mismatch, Never, Not
         from testtools.twistedsupport import failed, has_no_result, succeeded
         ctx = self
 
@@ -124,6 +125,12 @@ class _Ctx:
                 return None if ctx.tok(x)[1] == self.k else Mismatch("token differs")
 
         def inner(i):
+            if i[0] == "not":
+                return Not(inner(i[1]))
+            if i[0] == "both":
+                return MatchesAll(inner(i[1]), inner(i[2]))
+            if i[0] == "either":
+                return MatchesAny(inner(i[1]), inner(i[2]))
             return Always() if i[0] == "always" else Never() if i[0] == "never" else Is(i[1])
         if m[0] == "noresult":
             return has_no_result()
@@ -164,15 +171,18 @@ def _run_history(ctx, ops, want_erased):
         auxs = []          # unfired Deferreds returned by "wait" callbacks (at most one outstanding)
         pauses = 0         # pause() calls of this history still in force
         for op in ops:
-            before, cbefore = ctx.state(d), bool(d.called)
+            before, cbefore, nlog = ctx.state(d), bool(d.called), len(log)
             k = op[0]
             keep = True
             if k == "match":
                 mm = ctx.matcher(op[1]).match(d)
                 out = ["match", mm is None]
                 keep = False
-                if before[0] == "err" and op[1][0] in ("succeeded", "failed"):
-                    erased.append(["add", ["pass"], ["const", 0]])
+                # the reference history (Spec.C20.erase_obs, checked there): the match disappears; where
+                # succeeded()/failed() looked at a failure, an errback returning what the Deferred holds now
+                after = ctx.state(d)
+                if before[0] == "err" and op[1][0] in ("succeeded", "failed") and after[0] == "val":
+                    erased.append(["add", ["pass"], ["const", after[1]]])
             elif k in ("fire", "fail"):
                 try:
                     if k == "fire":
@@ -215,7 +225,7 @@ def _run_history(ctx, ops, want_erased):
             if keep:
                 erased.append(op)
             per.append({"before": before, "cbefore": cbefore, "out": out, "after": ctx.state(d),
-                        "cafter": bool(d.called)})
+                        "cafter": bool(d.called), "ran": len(log) - nlog})
         final, called = ctx.state(d), bool(d.called)
         del d
         del auxs[:]
@@ -232,7 +242,7 @@ def drive(case):
     if case["kind"] == "hist":
         per, log, unhandled, erased, _, _ = _run_history(ctx, case["ops"], True)
         _, elog, eunhandled, _, efinal, ecalled = _run_history(ctx, erased, False)
-        return {"ops": per, "log": log, "unhandled": unhandled, "elog": elog, "efinal": efinal,
+        return {"ops": per, "log": log, "unhandled": unhandled, "eops": erased, "elog": elog, "efinal": efinal,
                 "ecalled": ecalled, "eunhandled": eunhandled}
     return _drive_sync(ctx, case)
 
@@ -325,7 +335,6 @@ def _drive_sync(ctx, case):
         return out
 
     return {"direct": user(RunTest, "direct"), "fired": user(SynchronousDeferredRunTest, "fired"),
-            "unfired": user(SynchronousDeferredRunTest, "unfired"),
             "ev_direct": whole(RunTest, "direct"), "ev_fired": whole(SynchronousDeferredRunTest, "fired")}
 
 
@@ -336,6 +345,9 @@ def t_cb(c):
 
 
 def t_inner(i):
+    if i[0] in ("not", "both", "either"):
+        return "(%s %s)" % ({"not": "INot", "both": "IBoth", "either": "IEither"}[i[0]],
+                            " ".join(t_inner(a) for a in i[1:]))
     return {"always": "IAlways", "never": "INever", "is": "(IIs %s)"}[i[0]] % tuple(q.nat(a) for a in i[1:])
 
 
@@ -404,17 +416,19 @@ def t_uret(u):
 def term(case, o):
     if case["kind"] == "hist":
         i = "(IHist %s)" % q.lst([t_op(op) for op in case["ops"]])
-        per = q.lst(["(mkO %s %s %s %s %s)" % (t_state(p["before"]), q.boolean(p["cbefore"]), t_out(p["out"]),
-                                               t_state(p["after"]), q.boolean(p["cafter"])) for p in o["ops"]])
-        ob = "(OHist (mkH %s %s %s %s %s %s %s))" % (per, t_log(o["log"]), q.boolean(o["unhandled"]), t_log(o["elog"]),
-                                                     t_state(o["efinal"]), q.boolean(o["ecalled"]),
-                                                     q.boolean(o["eunhandled"]))
+        per = q.lst(["(mkO %s %s %s %s %s %s)" % (t_state(p["before"]), q.boolean(p["cbefore"]), t_out(p["out"]),
+                                                  t_state(p["after"]), q.boolean(p["cafter"]), q.nat(p["ran"]))
+                     for p in o["ops"]])
+        ob = "(OHist (mkH %s %s %s %s %s %s %s %s))" % (per, t_log(o["log"]), q.boolean(o["unhandled"]),
+                                                        q.lst([t_op(e) for e in o["eops"]]), t_log(o["elog"]),
+                                                        t_state(o["efinal"]), q.boolean(o["ecalled"]),
+                                                        q.boolean(o["eunhandled"]))
         return q.pair(i, ob)
     w = case["what"]
     i = "(ISync %s (%s %s))" % (q.nat(case["pos"]), "inl" if w[0] == "ok" else "inr", q.nat(w[1]))
-    ob = "(OSync (mkS %s %s %s %s %s))" % (t_uret(o["direct"]), t_uret(o["fired"]), t_uret(o["unfired"]),
-                                           q.lst([q.nat(e) for e in o["ev_direct"]]),
-                                           q.lst([q.nat(e) for e in o["ev_fired"]]))
+    ob = "(OSync (mkS %s %s %s %s))" % (t_uret(o["direct"]), t_uret(o["fired"]),
+                                        q.lst([q.nat(e) for e in o["ev_direct"]]),
+                                        q.lst([q.nat(e) for e in o["ev_fired"]]))
     return q.pair(i, ob)
 
 
@@ -423,34 +437,98 @@ def perturb(case, o):
     if case["kind"] == "hist":
         o["ecalled"] = not o["ecalled"]
     else:
-        o["unfired"] = ["ret", 0]
+        o["fired"] = ["ret", 97]
     return o
 
 
 # ---------------- generation ----------------
 MATCHERS = [["noresult"], ["succeeded", ["always"]], ["failed", ["always"]], ["succeeded", ["never"]],
             ["failed", ["never"]], ["succeeded", ["is", 3]], ["succeeded", ["is", 0]], ["failed", ["is", 1]],
-            ["failed", ["is", 2]]]
+            ["failed", ["is", 2]],
+            # nested inner matchers
+            ["succeeded", ["not", ["is", 3]]], ["failed", ["not", ["is", 1]]],
+            ["succeeded", ["either", ["is", 0], ["is", 3]]], ["failed", ["both", ["not", ["is", 2]], ["always"]]],
+            ["succeeded", ["both", ["is", 3], ["not", ["never"]]]], ["failed", ["either", ["never"], ["is", 2]]]]
 CBS = [["pass"], ["const", 0], ["const", 3], ["raise", 1], ["rec", 1], ["rec", 2], ["recnone", 3], ["wait"]]
+RECS = [["rec", 1], ["rec", 2], ["recnone", 3]]
+
+
+def rand_inner(rng, depth=2):
+    r = rng.random()
+    if depth == 0 or r < 0.55:
+        return rng.choice([["always"], ["never"], ["is", rng.choice([0, 1, 2, 3])]])
+    if r < 0.7:
+        return ["not", rand_inner(rng, depth - 1)]
+    return [rng.choice(["both", "either"]), rand_inner(rng, depth - 1), rand_inner(rng, depth - 1)]
+
+
+def rand_matcher(rng):
+    r = rng.random()
+    if r < 0.5:
+        return rng.choice(MATCHERS)
+    if r < 0.6:
+        return ["noresult"]
+    return [rng.choice(["succeeded", "failed"]), rand_inner(rng)]
+
+
+def rand_add(rng):
+    # mostly a recorder on at least one side: what later/earlier callbacks see is the point
+    r = rng.random()
+    if r < 0.45:
+        return ["add", rng.choice(RECS), rng.choice(RECS)]
+    if r < 0.75:
+        return ["add", rng.choice(CBS), rng.choice(CBS)]
+    return rng.choice([["add", ["raise", rng.randrange(N_EXC)], ["pass"]], ["add", ["pass"], ["const", rng.choice([0, 3, 5])]],
+                       ["add", ["wait"], ["wait"]], ["add", ["const", 3], ["raise", 2]], ["add", ["wait"], ["pass"]],
+                       ["add", ["pass"], ["wait"]]])
+
+
+def rand_fire(rng):
+    if rng.random() < 0.5:
+        return ["fire", rng.choice([0, 0, 1, 2, 3, 3, 4, 5, 6])]
+    return ["fail", rng.randrange(N_EXC)]
 
 
 def rand_op(rng):
     r = rng.random()
-    if r < 0.33:
-        return ["match", rng.choice(MATCHERS)]
-    if r < 0.46:
-        return ["fire", rng.choice([0, 0, 1, 2, 3, 4, 5, 6])]
-    if r < 0.56:
-        return ["fail", rng.randrange(N_EXC)]
-    if r < 0.80:
-        return ["add", rng.choice(CBS), rng.choice(CBS)]
-    if r < 0.86:
+    if r < 0.36:
+        return ["match", rand_matcher(rng)]
+    if r < 0.50:
+        return rand_fire(rng)
+    if r < 0.78:
+        return rand_add(rng)
+    if r < 0.84:
         return ["pause"]
-    if r < 0.91:
+    if r < 0.90:
         return ["unpause"]
     if r < 0.97:
         return ["resume", "val", rng.choice([0, 3, 6])] if rng.random() < 0.6 else ["resume", "err", rng.randrange(N_EXC)]
     return ["extract"]
+
+
+def rand_history(rng):
+    """callbacks before, a body in which the Deferred is matched and fired in some order (possibly behind a
+    pause or a chained Deferred), callbacks after; always at least one match, one fire/fail, one callback"""
+    ops = [rand_add(rng) for _ in range(rng.choice([0, 0, 1, 1, 2, 3]))]
+    if rng.random() < 0.2:
+        ops.append(["pause"])
+    body = [rand_op(rng) for _ in range(rng.randint(2, 8))]
+    kinds = [o[0] for o in body]
+    if "match" not in kinds:
+        body.insert(rng.randint(0, len(body)), ["match", rand_matcher(rng)])
+    if "fire" not in kinds and "fail" not in kinds:
+        body.insert(rng.randint(0, len(body)), rand_fire(rng))
+    ops += body
+    r = rng.random()
+    if r < 0.55:
+        ops.append(["add", rng.choice(RECS), rng.choice(RECS)])
+    elif r < 0.75:
+        ops += [["match", rand_matcher(rng)], ["add", rng.choice(RECS), rng.choice(RECS)]]
+    elif r < 0.85:
+        ops += [["unpause"], ["resume", "val", 6], ["add", ["rec", 2], ["rec", 2]]]
+    if not any(o[0] == "add" for o in ops):
+        ops.append(["add", ["rec", 1], ["rec", 1]])
+    return ops
 
 
 def generate(rng, tier):
@@ -472,6 +550,16 @@ def generate(rng, tier):
     hist([["fire", 3], ["extract"], rec(1)])
     hist([["fail", 0], ["extract"], rec(1)])
     hist([["fire", 3], ["fire", 4]])
+    # SynchronousDeferredRunTest
+    for pos in range(4):
+        for w in [["ok", 0], ["ok", 3], ["ok", 6], ["err", 0], ["err", 1], ["err", 2], ["err", 3]]:
+            cases.append({"kind": "sync", "pos": pos, "what": w})
+    # a failure is inspected and the Deferred dropped: nothing may be logged; not inspected: logged
+    for m in MATCHERS[1:]:
+        hist([rec(1), ["fail", 1], ["match", m]])
+        hist([["fail", 2], ["match", m], ["add", ["raise", 3], ["pass"]], ["match", m]])
+        hist([["fail", 2], ["match", m], ["add", ["raise", 3], ["pass"]], ["match", ["noresult"]]])
+        hist([["add", ["raise", 0], ["pass"]], ["match", m], ["fire", 3], ["match", m], rec(2)])
     # fired, but no result yet: paused chain / waiting for a Deferred returned by a callback
     wait = ["add", ["wait"], ["wait"]]
     for fi in (["fire", 3], ["fail", 1]):
@@ -481,6 +569,8 @@ def generate(rng, tier):
         hist([fi, ["pause"]] + tri + [["unpause"]] + tri)
         hist([fi, wait] + tri + [["pause"], ["resume", "val", 0]] + tri + [["unpause"]] + tri)
         hist([["pause"], fi, ["extract"], ["unpause"], rec(1)])
+        hist([rec(1), wait, rec(2), wait, fi] + tri + [["resume", "err", 3]] + tri + [["resume", "val", 3]] + tri)
+        hist([["pause"], ["pause"], fi, ["match", MATCHERS[0]], ["unpause"]] + tri + [["unpause"]] + tri + [rec(1)])
     hist([["fail", 1], ["pause"]])                                    # a failure behind a pause is still logged
     hist([["pause"], ["fail", 1]])                                    # ... but not one that never reached the chain
     # every Deferred state with 0-3 callbacks attached x every matcher, then a recording callback
@@ -488,29 +578,31 @@ def generate(rng, tier):
             [rec(1), ["add", ["raise", 2], ["raise", 0]], ["add", ["recnone", 2], ["rec", 2]]]]
     fires = [[], [["fire", 0]], [["fire", 3]], [["fail", 1]], [["fail", 2]]]
     for pre, fi, m in itertools.product(pres, fires, MATCHERS):
-        hist(pre + fi + [["match", m], rec(3)])
-        hist(fi + pre + [["match", m], rec(3)])
-        if not fi:
+        if fi:
+            hist(pre + fi + [["match", m], rec(3)])
+            hist(fi + pre + [["match", m], rec(3)])
+        else:
+            hist(pre + [["match", m], rec(3)])
             hist(pre + [["match", m], ["fire", 3], rec(3)])
             hist(pre + [["match", m], ["fail", 1], rec(3)])
-    # all orders of match / fire / fail / add-callback up to length 4 over a reduced alphabet
+    # all orders of match / fire / fail / add-callback / pause / chain up to length 4 over a reduced alphabet;
+    # only those with a match (the rest says nothing about matchers); a history that never fires gets a fire
     alpha = [["match", ["noresult"]], ["match", ["succeeded", ["is", 3]]], ["match", ["failed", ["never"]]],
              ["fire", 3], ["fail", 1], ["add", ["rec", 1], ["rec", 1]], ["add", ["raise", 2], ["const", 0]],
              ["add", ["wait"], ["pass"]], ["pause"], ["unpause"], ["resume", "val", 6]]
-    allh = [h for n in range(1, 5) for h in itertools.product(alpha, repeat=n)]
-    want = 1500 if tier == "quick" else 16000
+    allh = [h for n in range(1, 5) for h in itertools.product(alpha, repeat=n) if any(o[0] == "match" for o in h)]
+    want = 1500 if tier == "quick" else 12000
     stride = max(1, len(allh) // want)
     off = rng.randrange(stride)
     for k, h in enumerate(allh):
         if k % stride == off or len(h) <= 2:
-            hist(list(h) + [rec(3)])
-    n_rand = 1200 if tier == "quick" else 50000
+            h = list(h)
+            if not any(o[0] in ("fire", "fail") for o in h):
+                h.append([["fire", 3], ["fail", 1], ["fire", 0]][k % 3])
+            hist(h + [rec(3)])
+    n_rand = 2400 if tier == "quick" else 46000
     for _ in range(n_rand):
-        hist([rand_op(rng) for _ in range(rng.randint(1, 7))])
-    # SynchronousDeferredRunTest
-    for pos in range(4):
-        for w in [["ok", 0], ["ok", 3], ["ok", 6], ["err", 0], ["err", 1], ["err", 2], ["err", 3]]:
-            cases.append({"kind": "sync", "pos": pos, "what": w})
+        hist(rand_history(rng))
     return cases
 
 
